@@ -63,6 +63,8 @@ func hostileWorker(args []string) error {
 	out := fs.String("out", "", "outcome file (appended)")
 	asGiB := fs.Uint64("as", 12, "address space limit in GiB")
 	deadline := fs.Duration("deadline", 20*time.Second, "per-input deadline")
+	mod := fs.Int("mod", 1, "only the cases whose index is congruent to -rem modulo this")
+	rem := fs.Int("rem", 0, "see -mod")
 	skip := fs.String("skip", "", "signatures (entry point|source kind|record|field|kind, separated by ;) whose cases are not run any more")
 	fs.Parse(args)
 	skipSigs := map[string]bool{}
@@ -109,7 +111,7 @@ func hostileWorker(args []string) error {
 	idx := -1
 	for sc.Scan() {
 		idx++
-		if idx < *from || idx >= *to {
+		if idx < *from || idx >= *to || idx%*mod != *rem {
 			continue
 		}
 		var c hcase
@@ -589,12 +591,10 @@ func runCases(casesPath string, n int, dirv string, workersv int) []*houtcome {
 		}
 		return false
 	}
-	per := (n + *workers - 1) / *workers
+	// worker k takes the cases k, k+workers, k+2*workers, ...: the cases of one plan are neighbours in the file, and a change
+	// that makes a whole plan hang would otherwise keep one worker busy with all of them while the others are done
 	for k := 0; k < *workers; k++ {
-		from, to := k*per, (k+1)*per
-		if to > n {
-			to = n
-		}
+		from, to := k, n
 		if from >= to {
 			continue
 		}
@@ -603,9 +603,15 @@ func runCases(casesPath string, n int, dirv string, workersv int) []*houtcome {
 			defer wg.Done()
 			of := fmt.Sprintf("%s/outcomes-%d.txt", *dir, k)
 			os.Remove(of)
+			nextIn := func(x int) int { // the first case of this worker at or after x
+				for x%*workers != k {
+					x++
+				}
+				return x
+			}
 			next := from
 			for next < to {
-				cmd := exec.Command(self, "hostile-worker", "-cases", casesPath, "-from", fmt.Sprint(next), "-to", fmt.Sprint(to), "-out", of, "-as", fmt.Sprint(casesASGiB), "-deadline", casesDeadline, "-skip", skipList())
+				cmd := exec.Command(self, "hostile-worker", "-cases", casesPath, "-from", fmt.Sprint(next), "-to", fmt.Sprint(to), "-mod", fmt.Sprint(*workers), "-rem", fmt.Sprint(k), "-out", of, "-as", fmt.Sprint(casesASGiB), "-deadline", casesDeadline, "-skip", skipList())
 				var stderr bytes.Buffer
 				cmd.Stderr = &stderr
 				err := cmd.Run()
@@ -636,7 +642,7 @@ func runCases(casesPath string, n int, dirv string, workersv int) []*houtcome {
 				}
 				// the child died while working on case `started`
 				if started < 0 {
-					started = last + 1
+					started = nextIn(last + 1)
 				}
 				class := "fatal"
 				es := stderr.String()
